@@ -95,3 +95,19 @@ pub fn catalogue() -> Vec<Entry> {
 pub fn entries(tier: Tier, rounding: bool) -> Vec<Entry> {
     catalogue().into_iter().filter(|e| (e.tier == Tier::Quick || tier == Tier::Thorough) && e.rounding == rounding).collect()
 }
+
+/// L-loop banana accepted at dimension D: all weights w with L*D/(2(L+1)) < w < D/2
+/// (w = D(2L+1)/(4(L+1))), one massive edge, externals {0,1}
+pub fn banana(l: usize, d: usize) -> Entry {
+    let num = (d * (2 * l + 1)) as i64;
+    let den = (4 * (l + 1)) as i64;
+    let g = num::integer::gcd(num, den);
+    Entry {
+        name: Box::leak(format!("banana(L={},D={})", l, d).into_boxed_str()),
+        edges: (0..=l).map(|i| (0u8, 1u8, i == 0, num / g, den / g)).collect(),
+        externals: vec![0, 1],
+        dims: vec![d],
+        tier: Tier::Quick,
+        rounding: true,
+    }
+}
